@@ -77,6 +77,9 @@ type ccLine struct {
 	rootPathOmit  bool    // --root_path not given at all
 	style         int     // spelling of the argument vector
 	tag           string
+	// respell, when not nil, rewrites the argument vector argv() builds (stream argvkey: other spellings, orders and
+	// repetitions of the same command line; the fields above keep saying what it MEANS)
+	respell func([]string) []string
 }
 
 type ccSite struct{ bucket, certDir, rootPath string }
@@ -235,7 +238,11 @@ func (s *ccStack) argv(l ccLine) []string {
 	if l.sub == 'w' {
 		boolFlag("force_prod_wipeout", l.force, 2)
 	}
-	return append(a, l.args...)
+	a = append(a, l.args...)
+	if l.respell != nil {
+		a = l.respell(a)
+	}
+	return a
 }
 
 func ccHexOcc(l []string) string {
